@@ -58,7 +58,10 @@ Example C04_example_found :
   rfc_eval (rfc_tokens s) d = Some ([PKey [97%N]; PIdx 1; PKey [126%N; 47%N]], JBool true) /\
   (exists p, Pointer.parse true s = Ok p /\
              resolve p d = Ok (RNode [PKey [97%N]; PIdx 1; PKey [126%N; 47%N]] (JBool true))).
-Proof. vm_compute. repeat split; try reflexivity. eexists; split; reflexivity. Qed.
+Proof.
+  cbv zeta. repeat (split; [vm_compute; reflexivity|]).
+  eexists; split; [vm_compute; reflexivity|vm_compute; reflexivity].
+Qed.
 
 Example C04_example_missing :
   let d := JObj [([97%N], JArr [JNull])] in
@@ -66,4 +69,7 @@ Example C04_example_missing :
   rfc6901_syntax s = true /\ outside_extensions (rfc_tokens s) = true /\
   rfc_eval (rfc_tokens s) d = None /\
   (exists p, Pointer.parse true s = Ok p /\ resolve p d = Err (EPointer KPtrType)).
-Proof. vm_compute. repeat split; try reflexivity. eexists; split; reflexivity. Qed.
+Proof.
+  cbv zeta. repeat (split; [vm_compute; reflexivity|]).
+  eexists; split; [vm_compute; reflexivity|vm_compute; reflexivity].
+Qed.
